@@ -1,5 +1,6 @@
 import DropletsVerif.Driver.Util
 import DropletsVerif.Model.Coll
+import DropletsVerif.Model.Stats
 namespace DV.Drv
 open DV.Coll
 
@@ -82,8 +83,50 @@ def dump (s : St) : String := Id.run do
     out := out ++ " " ++ toString v.layout ++ "/" ++ toString v.dim ++ "/" ++ toString v.radius
   return out
 
+def pairsR : List Rat → List (Rat × Rat)
+  | a :: b :: rest => (a, b) :: pairsR rest
+  | _ => []
+
+def showOptRat (o : Option Rat) : String := match o with | some q => showRat q | none => "none"
+
+/-- `c20 stats size <incl> r..` · `stats width w a w a ..` · `stats bbox p r p r ..` · `stats nearest t t1 t2 ..`
+    · `stats keep m r..` · `stats duration t..`   (exact rationals) -/
+def handleStats (args : List String) : String :=
+  match args with
+  | "size" :: incl :: rest =>
+    match parseRats rest with
+    | some rs =>
+      let sel := DV.Stats.select (incl == "1") rs
+      if sel.isEmpty then "ok 0 nan nan"
+      else s!"ok {sel.length} {showRat (DV.Stats.mean sel)} {showRat (DV.Stats.variance sel)}"
+    | none => "bad-op"
+  | "width" :: rest =>
+    match parseRats rest with
+    | some xs => "ok " ++ showOptRat (DV.Stats.weightedWidth (pairsR xs))
+    | none => "bad-op"
+  | "bbox" :: rest =>
+    match parseRats rest with
+    | some xs => "ok " ++ showOptRat (DV.Stats.lower (pairsR xs)) ++ " " ++ showOptRat (DV.Stats.upper (pairsR xs))
+    | none => "bad-op"
+  | "nearest" :: rest =>
+    match parseRats rest with
+    | some (t :: ts) => match DV.Stats.nearestIdx ts t with
+      | some i => s!"ok {i}"
+      | none => "ok none"
+    | _ => "bad-op"
+  | "keep" :: rest =>
+    match parseRats rest with
+    | some (m :: rs) => "ok " ++ " ".intercalate ((DV.Stats.keepLarger rs m).map showRat)
+    | _ => "bad-op"
+  | "duration" :: rest =>
+    match parseRats rest with
+    | some ts => "ok " ++ showRat (DV.Stats.duration ts)
+    | none => "bad-op"
+  | _ => "bad-op"
+
 /-- `c20 op ; op ; …` → per-op result and canonical dump, joined by ` || ` -/
 def handleC20 (args : List String) : String :=
+  if args.head? == some "stats" then handleStats (args.drop 1) else
   let groups := (args.splitOn ";").filter (fun g => !g.isEmpty)
   match groups.mapM parseOp with
   | none => "bad-op"
